@@ -169,11 +169,14 @@ def decodeSlice (d : Dec) (p : Pkt) : Dec × Except SliceErr Bytes :=
       let b := (p2 >>> 4) &&& 1
       let e := (p2 >>> 3) &&& 1
       let body := p.payload.drop 4
-      if b = 1 ∧ e = 1 then (d.resetFragments, .ok body)
+      if b = 1 ∧ e = 1 then
+        if body.length = 0 then (d.resetFragments, .error .err)   -- header-only packet
+        else (d.resetFragments, .ok body)
       else if b = 1 then
         ({ d with fragments := [body], fragSize := body.length, nextSeq := p.seq + 1 }, .error .more)
       else if d.fragSize = 0 then (d, .error .nonStart)
       else if p.seq ≠ d.nextSeq then (d.resetFragments, .error .err)
+      else if body.length = 0 then (d.resetFragments, .error .err)   -- header-only fragment
       else
         let sz := d.fragSize + body.length
         if d.sliceSize + sz > maxFrameSize then
